@@ -461,7 +461,7 @@ fn spawn_worker(a: &Args, w: usize, nw: usize, skip: u64, tx: &mpsc::Sender<Msg>
 	let mut cmd = Command::new(std::env::current_exe().expect("current exe"));
 	cmd.args(&a.raw).arg("--worker").arg(w.to_string()).arg(nw.to_string()).arg(skip.to_string());
 	// workers keep their files under the parent's scratch directory (a killed worker cannot clean up)
-	cmd.stdout(Stdio::piped()).stdin(Stdio::null()).env("RUST_BACKTRACE", "0").env("VERIF_WORK", scratch);
+	cmd.stdout(Stdio::piped()).stdin(Stdio::null()).env("RUST_BACKTRACE", "0").env("VERIF_WORK", scratch).env("VERIF_SCRATCH", scratch);
 	let mut child = cmd.spawn().expect("spawn worker");
 	let out = child.stdout.take().unwrap();
 	let tx = tx.clone();
